@@ -567,8 +567,30 @@ fn gen_query(rng: &mut Rng, model: &Value, names: &[String]) -> String {
             quote_single(n)
         }
     };
-    match rng.weighted(&[4, 3, 3, 4, 3, 2, 2, 2, 2]) {
+    // one to three suffix segments: the combinations matter (a filter below a descendant below a slice,
+    // a union holding a filter, nested filters)
+    let n_suffix = match rng.weighted(&[6, 3, 1]) {
+        0 => 1,
+        1 => 2,
+        _ => 3,
+    };
+    for round in 0..n_suffix {
+    match if round == 0 { rng.weighted(&[4, 3, 3, 4, 3, 2, 2, 2, 2, 2]) } else { rng.weighted(&[0, 3, 3, 3, 3, 2, 2, 2, 2, 2]) } {
         0 => {}
+        9 => {
+            // unions that hold a filter or a slice, nested filters, filters with sub-queries
+            let n = some_name(rng);
+            let sel = name_sel(rng, &n);
+            let f = match rng.below(6) {
+                0 => format!("[?@,{}]", rng.range(-2, 2)),
+                1 => format!("[{},?@[0]]", sel),
+                2 => "[?@[?@]]".to_string(),
+                3 => "[?@[?@>0]]".to_string(),
+                4 => format!("[0:2,{}]", rng.range(-3, 3)),
+                _ => "[?count(@..*)>1]".to_string(),
+            };
+            q.push_str(&f);
+        }
         1 => q.push_str(".*"),
         2 => q.push_str("[*]"),
         3 => q.push_str("..*"),
@@ -608,6 +630,7 @@ fn gen_query(rng: &mut Rng, model: &Value, names: &[String]) -> String {
             q.push_str(&format!("[{},{}]", sa, sb));
         }
         _ => q.push_str(*rng.pick(&["[0,1]", "[1,0]", "[0,0]", "[-1,0]"])),
+    }
     }
     q
 }
